@@ -637,7 +637,12 @@ func validText(t []byte) bool { // from the FormatRecord documentation
 }
 
 func recordCase(id int64, text, tail []byte) (msg string, accepted bool) {
-	m, err := tlog.FormatRecord(id, text)
+	// the text is a window of a longer array (records kept back to back): what lies behind it is the caller's
+	textW, intact := enum.Spare(text, byte(0x5e), 3)
+	m, err := tlog.FormatRecord(id, textW)
+	if !intact() || !bytes.Equal(textW, text) {
+		return fmt.Sprintf("FormatRecord(%d,%q) wrote into the caller's array (the text or the bytes behind it)", id, text), false
+	}
 	if err != nil {
 		if validText(text) {
 			return fmt.Sprintf("FormatRecord(%d,%q) refused valid record text: %v", id, text, err), false
@@ -649,7 +654,12 @@ func recordCase(id int64, text, tail []byte) (msg string, accepted bool) {
 	if !bytes.Equal(m, want) {
 		return fmt.Sprintf("FormatRecord(%d,%q)=%q, documented encoding %q", id, text, m, want), true
 	}
-	gid, gtext, rest, err := tlog.ParseRecord(append(append([]byte{}, m...), tail...))
+	full, intact2 := enum.Spare(append(append([]byte{}, m...), tail...), byte(0x5e), 3)
+	keep := string(full)
+	gid, gtext, rest, err := tlog.ParseRecord(full)
+	if !intact2() || string(full) != keep {
+		return fmt.Sprintf("ParseRecord(%q) wrote into the caller's array", keep), true
+	}
 	if err != nil || gid != id || !bytes.Equal(gtext, text) || !bytes.Equal(rest, tail) {
 		return fmt.Sprintf("ParseRecord(FormatRecord(%d,%q)+%q) = %d,%q,%q,%v", id, text, tail, gid, gtext, rest, err), true
 	}
